@@ -17,6 +17,7 @@ type dnode struct {
 	core       string // the attributes the Lean compile model has
 	cfg        bool
 	opd        bool // an opd:command / opd:option / opd:argument node (outside the Lean compile model)
+	aux        bool // the tree of an rpc's input or output, or of a notification: a root, not a node a filter sees
 	kids       []*dnode
 }
 
@@ -158,7 +159,7 @@ func (d *dnode) render(b *strings.Builder, ind string) {
 }
 
 func (d *dnode) renderCore(b *strings.Builder, ind string) {
-	if d.opd {
+	if d.opd || d.aux {
 		return
 	}
 	b.WriteString(ind + d.kind + " " + d.name + " " + d.core + "\n")
@@ -180,16 +181,56 @@ func (d *dnode) String() string {
 }
 
 func (d *dnode) prune(keep func(*dnode) bool) *dnode {
-	out := &dnode{kind: d.kind, name: d.name, attrs: d.attrs, core: d.core, cfg: d.cfg, opd: d.opd}
+	out := &dnode{kind: d.kind, name: d.name, attrs: d.attrs, core: d.core, cfg: d.cfg, opd: d.opd, aux: d.aux}
 	for _, k := range d.kids {
-		if keep(k) {
+		if k.aux || keep(k) {
 			out.kids = append(out.kids, k.prune(keep))
 		}
 	}
 	return out
 }
 
-func dumpModelSet(ms schema.ModelSet) *dnode { return dumpOf(ms) }
+func dumpModelSet(ms schema.ModelSet) *dnode {
+	d := dumpOf(ms)
+	// the trees of the rpcs and notifications, after the data tree, in the order of their names
+	auxOf := func(kind, ns, name string, t schema.Tree) {
+		a := dumpOf(t)
+		a.kind, a.name, a.aux = kind, ns+" "+name, true
+		d.kids = append(d.kids, a)
+	}
+	var nss []string
+	for ns := range ms.Rpcs() {
+		nss = append(nss, ns)
+	}
+	sort.Strings(nss)
+	for _, ns := range nss {
+		var names []string
+		for n := range ms.Rpcs()[ns] {
+			names = append(names, n)
+		}
+		sort.Strings(names)
+		for _, n := range names {
+			auxOf("rpc-input", ns, n, ms.Rpcs()[ns][n].Input())
+			auxOf("rpc-output", ns, n, ms.Rpcs()[ns][n].Output())
+		}
+	}
+	nss = nil
+	for ns := range ms.Notifications() {
+		nss = append(nss, ns)
+	}
+	sort.Strings(nss)
+	for _, ns := range nss {
+		var names []string
+		for n := range ms.Notifications()[ns] {
+			names = append(names, n)
+		}
+		sort.Strings(names)
+		for _, n := range names {
+			auxOf("notification", ns, n, ms.Notifications()[ns][n].Schema())
+		}
+	}
+	return d
+}
 
 // ---- C20: filters ------------------------------------------------------------------------------------------------
 
@@ -232,6 +273,33 @@ func renderOpd(v int) string {
 	return s + "  }\n"
 }
 
+func renderOps(ops []any) string {
+	var b strings.Builder
+	body := func(kw string, kids []any, ind string) {
+		b.WriteString(ind + kw + " {\n")
+		for _, k := range kids {
+			renderNode(&b, k.(map[string]any), ind+"  ")
+		}
+		b.WriteString(ind + "}\n")
+	}
+	for _, o := range ops {
+		op := o.(map[string]any)
+		if cstr(op, "k") == "notification" {
+			body("notification "+cstr(op, "n"), carr(op, "in"), "  ")
+			continue
+		}
+		b.WriteString("  rpc " + cstr(op, "n") + " {\n")
+		if _, ok := op["in"]; ok {
+			body("input", carr(op, "in"), "    ")
+		}
+		if _, ok := op["out"]; ok {
+			body("output", carr(op, "out"), "    ")
+		}
+		b.WriteString("  }\n")
+	}
+	return b.String()
+}
+
 func genYFilterCase(r *Rng, tier string) Case {
 	g := &sgen{r: r, forData: true, withCfg: true, maxDepth: 2 + r.Intn(2)}
 	if tier == "thorough" {
@@ -241,6 +309,25 @@ func genYFilterCase(r *Rng, tier string) Case {
 	g.noStatus = factored
 	top := g.genKids(0, false)
 	c := Case{"k": "yfilter", "top": top}
+	if r.Chance(35) { // rpcs and notifications: their trees are filtered like the data tree
+		var ops []any
+		for i := 1 + r.Intn(2); i > 0; i-- {
+			og := &sgen{r: r, forData: true, withCfg: true, maxDepth: 1 + r.Intn(2), noStatus: true}
+			if r.Chance(50) {
+				op := map[string]any{"k": "rpc", "n": fmt.Sprintf("op%d", i)}
+				if r.Chance(80) {
+					op["in"] = og.genKids(0, false)
+				}
+				if r.Chance(80) {
+					op["out"] = og.genKids(0, false)
+				}
+				ops = append(ops, op)
+			} else {
+				ops = append(ops, map[string]any{"k": "notification", "n": fmt.Sprintf("ev%d", i), "in": og.genKids(0, false)})
+			}
+		}
+		c["ops"] = ops
+	}
 	if !factored && r.Chance(40) { // operational commands next to the data nodes
 		c["opd"] = 1 + r.Intn(6)
 	} else if factored && len(top) >= 2 {
@@ -324,6 +411,15 @@ func runYFilter(c Case) string {
 		if _, err := compileAll(texts...); err == nil {
 			fact, _ := yusesTexts(Case(f))
 			texts = fact[:2]
+		}
+	}
+	if ops := carr(c, "ops"); len(ops) > 0 {
+		// (kept only where the module still compiles with them: which error comes first is the data tree's business)
+		end := strings.LastIndex(texts[0], "}")
+		with := texts[0][:end] + renderOps(ops) + texts[0][end:]
+		rest := append([]string{with}, texts[1:]...)
+		if _, err := compileAll(rest...); err == nil {
+			texts = rest
 		}
 	}
 	if v := cint(c, "opd"); v > 0 {
